@@ -181,3 +181,17 @@ package index
 //gvc:  sink Write requires count: len(idx.Entries) <= 0xffffffff ==> arg3 == len(idx.Entries)
 //gvc:  ensures wrote: calls("Write") == 1
 //gvc:end
+
+// readExtensions (C12: every index git writes is decoded): the look-ahead that
+// decides whether another extension follows asks for exactly an extension
+// header (4-byte signature, 4-byte length) plus the trailing checksum -- an
+// extension may be empty, so demanding more refuses an index whose last
+// extension has no payload.
+//gvc:func (*Decoder).readExtensions
+//gvc:  props C12
+//gvc:  theory int
+//gvc:  opt coarse
+//gvc:  opt frame args
+//gvc:  loop 1 let hs = d.hash.#hsize
+//gvc:  sink Peek requires window: arg0 == 8 + hs
+//gvc:end
